@@ -96,6 +96,11 @@ def candsOf (ops : List Op) : List Nat :=
 def utxoStr (cands : List Nat) (u : C03State) : String :=
   natsStr (cands.filter (fun o => (u.set (o, 0)).isSome))
 
+/-- Σ height / number of coinbase entries over the unspent candidates (C03 `Entry.height`, `Entry.coinbase`) -/
+def uhStr (cands : List Nat) (u : C03State) : String :=
+  let es := cands.filterMap (fun o => u.set (o, 0))
+  s!"{(es.map (·.height)).sum}/{(es.filter (·.coinbase)).length}"
+
 def persStr (cands : List Nat) (img : Image A) : String :=
   let marker := match img.marker with | none => "-" | some m => toString (cid m)
   let hidx := if img.created then natsStr ((suffixes img.best).reverse.map cid) else "-"
@@ -179,7 +184,7 @@ def reopenStr (cfg : Cfg) (cands : List Nat) (img : Image A) (acked : List Chain
     let sj := (onDisk.filter (fun c => match c with
       | [] => false
       | b :: _ => b.spends.isEmpty || c ∈ rn.img.journal)).length
-    s!"r=ok,{cid rn.tip},{chain},{utxoStr cands rn.utxo},{missing} mc={mc} bb={bb} sj={sj} bs={rn.tip.length}/{numTx rn.tip}/{totalTx rn.tip} fin={cid specTip};{cid after.tip};{utxoStr cands after.utxo}"
+    s!"r=ok,{cid rn.tip},{chain},{utxoStr cands rn.utxo},{missing} uh={uhStr cands rn.utxo} mc={mc} bb={bb} sj={sj} bs={rn.tip.length}/{numTx rn.tip}/{totalTx rn.tip} fin={cid specTip};{cid after.tip};{utxoStr cands after.utxo}"
 
 def resList (recs : List OpRec) : String := ".".intercalate (recs.map (fun r => resStr r.res))
 
